@@ -13,7 +13,10 @@ RULE = ('three case kinds.  body: program trees over {return obj, raise <any of 
         'labelled Counter/Gauge/Summary/Histogram x scripted clocks (increasing, constant, decreasing, random, exhausted): '
         'exhaustive over single wrapper x outcome class x mode x clock shape, then random trees to depth 5.  '
         'bind: generated parameter lists (positional-only, defaults, *args, keyword-only with/without defaults, **kwargs, '
-        'annotations naming local classes, methods, lambdas, reserved names) x call shapes valid and invalid '
+        'annotations naming local classes, methods, lambdas, reserved names; function names with case/underscores/non-ASCII/300 chars; '
+        'docstrings None/empty/blank/multi-line with indented continuation, leading and trailing blank lines and spaces, tabs, CRLF, '
+        'non-ASCII, percent and quote characters, 5000 chars, in the source or assigned; __name__, __qualname__, __doc__ compared '
+        'exactly, __defaults__/__kwdefaults__/__annotations__ by object identity) x call shapes valid and invalid '
         '(missing, too many, unexpected keyword, duplicate, positional-only by keyword, keyword named func): exhaustive '
         'over small shapes x small calls, then random.  hier: all 22x22 issubclass pairs.  '
         'non-trivial = at least one wrapper executed with a raising body or a non-increasing clock (body); '
@@ -166,7 +169,7 @@ def shape_source(sh, body='return _ret_(locals())'):
         if sh['posonly'] and i == len(sh['posonly']) - 1:
             parts.append('/')
     if sh['varargs']:
-        parts.append('*' + sh['varargs'])
+        parts.append('*' + sh['varargs'] + (": 'Star'" if ann else ''))
     elif sh['kwonly']:
         parts.append('*')
     for j, k in enumerate(sh['kwonly']):
@@ -175,13 +178,13 @@ def shape_source(sh, body='return _ret_(locals())'):
             t += (' = ' if ann else '=') + '_kd%d' % sh['kwdefaults'].index(k)
         parts.append(t)
     if sh['varkw']:
-        parts.append('**' + sh['varkw'])
+        parts.append('**' + sh['varkw'] + (': _Local' if ann else ''))
     sig = ', '.join(parts)
     name = sh['name']
     if sh.get('lambda'):
         return '%s = lambda %s: %s\n' % ('_lam_', sig, body.replace('return ', '', 1))
     ret = ' -> _Local' if ann else ''
-    doc = '    %r\n' % sh['doc'] if sh.get('doc') is not None else ''
+    doc = '    %r\n' % sh['doc'] if sh.get('doc') is not None and not sh.get('doc_assign') else ''
     if sh.get('method'):
         return 'class K:\n    def %s(%s)%s:\n    %s        %s\n' % (name, sig, ret, doc, body)
     return 'def %s(%s)%s:\n%s    %s\n' % (name, sig, ret, doc, body)
@@ -200,10 +203,14 @@ def make_function(sh, glob):
         g['_kd%d' % i] = g['_obj_'](200 + i)
     exec(compile(shape_source(sh), '<c16-shape>', 'exec'), g)
     if sh.get('lambda'):
-        return g['_lam_'], None
-    if sh.get('method'):
-        return g['K'].__dict__[sh['name']], g['K']
-    return g[sh['name']], None
+        f, owner = g['_lam_'], None
+    elif sh.get('method'):
+        f, owner = g['K'].__dict__[sh['name']], g['K']
+    else:
+        f, owner = g[sh['name']], None
+    if sh.get('doc') is not None and (sh.get('doc_assign') or sh.get('lambda')):
+        f.__doc__ = sh['doc']
+    return f, owner
 
 
 def shape_params(sh):
@@ -635,6 +642,11 @@ def run_bind(case):
                sig_equal=inspect.signature(wf) == inspect.signature(f),
                sig_text=(str(inspect.signature(f)), str(inspect.signature(wf))),
                ann_equal=getattr(wf, '__annotations__', None) == f.__annotations__,
+               ann_same=same_values(getattr(wf, '__annotations__', None) or {}, f.__annotations__ or {}),
+               qualname=(f.__qualname__, getattr(wf, '__qualname__', None)),
+               sig_own=(str(own_signature(f)), str(own_signature(wf))),
+               defaults_same=same_items(f.__defaults__ or (), getattr(wf, '__defaults__', None) or ()),
+               kwdefaults_same=same_values(f.__kwdefaults__ or {}, getattr(wf, '__kwdefaults__', None) or {}),
                iscoroutine=inspect.iscoroutinefunction(wf))
     out['wsig'] = sig_struct(wf, False)
     out['wname'] = wf.__name__
@@ -671,6 +683,30 @@ def run_bind(case):
         out['wrapped'] = call(fw)
     del E['log'][:]
     return dict(cmp=out, aux=aux)
+
+
+def same_items(a, b):
+    """two sequences of the very same objects"""
+    return len(a) == len(b) and all(x is y for x, y in zip(a, b))
+
+
+def same_values(a, b):
+    """two dicts with the same keys bound to the very same objects"""
+    return set(a) == set(b) and all(a[k] is b[k] for k in a)
+
+
+def own_signature(f):
+    """Defaults and annotations of the callable's OWN parameters (no __wrapped__), positional-only markers dropped:
+    FunctionMaker cannot spell `/` (listed finding), everything else of the signature text must survive."""
+    s = inspect.signature(f, follow_wrapped=False)
+    ps = [p.replace(kind=inspect.Parameter.POSITIONAL_OR_KEYWORD) if p.kind is inspect.Parameter.POSITIONAL_ONLY else p
+          for p in s.parameters.values()]
+    return s.replace(parameters=ps)
+
+
+def clip(x, n=160):
+    r = repr(x)
+    return r if len(r) <= n else '%s...<%d chars>...%s' % (r[:n // 2], len(r), r[-n // 2:])
 
 
 def collides(case):
@@ -710,14 +746,23 @@ def direct_bind_(case, obs):
     want_name = sh['name'] if not sh.get('lambda') else '<lambda>'
     if aux['name'][0] != want_name:
         return 'harness: generated function is called %r' % (aux['name'][0],)
-    if aux['name'][1] != aux['name'][0]:
-        return '__name__ of the wrapped callable is %r, of the original %r' % (aux['name'][1], aux['name'][0])
-    if aux['doc'][1] != aux['doc'][0]:
-        return '__doc__ of the wrapped callable is %r, of the original %r' % (aux['doc'][1], aux['doc'][0])
+    if type(aux['name'][1]) is not str or aux['name'][1] != aux['name'][0]:
+        return '__name__ of the wrapped callable is %s, of the original %s' % (clip(aux['name'][1]), clip(aux['name'][0]))
+    if aux['qualname'][1] != aux['qualname'][0]:
+        return '__qualname__ of the wrapped callable is %s, of the original %s' % (clip(aux['qualname'][1]), clip(aux['qualname'][0]))
+    if type(aux['doc'][1]) is not type(aux['doc'][0]) or aux['doc'][1] != aux['doc'][0]:
+        return '__doc__ of the wrapped callable is %s, of the original %s' % (clip(aux['doc'][1]), clip(aux['doc'][0]))
     if not aux['sig_equal']:
         return 'inspect.signature of the wrapped callable is %s, of the original %s' % (aux['sig_text'][1], aux['sig_text'][0])
-    if not aux['ann_equal']:
+    if not aux['ann_equal'] or not aux['ann_same']:
         return '__annotations__ of the wrapped callable differ from the original'
+    if not aux['defaults_same']:
+        return '__defaults__ of the wrapped callable are not the original default objects'
+    if not aux['kwdefaults_same']:
+        return '__kwdefaults__ of the wrapped callable are not the original default objects'
+    if aux['sig_own'][1] != aux['sig_own'][0]:
+        return ('the wrapped callable itself (not following __wrapped__) shows signature %s, the original %s'
+                % (aux['sig_own'][1], aux['sig_own'][0]))
     if c['orig'] != c['wrapped']:
         tag = 'binding differs'
         if reserved(case):
@@ -929,6 +974,17 @@ def classify(case, obs):
         for key in ('posonly', 'varargs', 'kwonly', 'varkw', 'ann', 'method', 'lambda'):
             if sh.get(key):
                 out.append('shape:' + key)
+        d = sh.get('doc')
+        if d is None:
+            out.append('doc:none')
+        else:
+            out.append('doc:' + ('empty' if d == '' else 'not-clean' if inspect.cleandoc(d) != d else 'clean'))
+            if '\n' in d:
+                out.append('doc:multi-line')
+            if any(ord(ch) > 127 for ch in d):
+                out.append('doc:non-ascii')
+        if any(ord(ch) > 127 for ch in sh['name']):
+            out.append('name:non-ascii')
         if sh['ndefaults']:
             out.append('shape:defaults')
         if sh['kwdefaults']:
@@ -1126,6 +1182,36 @@ def body_cases(ctx):
         yield dict(kind='body', body=b, clock=rand_clock(rng, 2 * count_timers(b) + rng.randrange(0, 3)))
 
 
+# docstrings: everything inspect.cleandoc / strip / dedent / expandtabs / a codec / a length limit / %-formatting would alter
+DOCS = [
+    'Docstring.', '', ' ', '\n', '\t', 'multi\nline',
+    'Handle one request.\n\n        Indented continuation line, kept verbatim,\n        with its leading whitespace.\n\n    :returns: a tuple\n    ',
+    '\n    Method docstring starting with a newline.\n    ',
+    '\n\n\nLeading blank lines.', 'Trailing blank lines.\n\n\n', '   leading spaces', 'trailing spaces   ',
+    'trailing space on a line   \nsecond line\t\n', '\tTabbed first line\n\tTabbed second line',
+    'First.\n\tTab-indented continuation\n\t\tdeeper', ' \t mixed \t ', 'First.\n  two\n    four\n      six\n',
+    'First.\n    same\n    same\n', 'CRLF line\r\n    second\r\n', 'form\x0cfeed and vertical\x0btab',
+    '\u00dcn\u00efc\u00f6d\u00e9 \u2014 docstring \u2713 \u540d\u524d\n    \u0438 \u043f\u0440\u043e\u0434\u043e\u043b\u0436\u0435\u043d\u0438\u0435 \U0001f600',
+    'non-breaking\u00a0space and\u2028line separator', 'percent %s %(name)s %(signature)s %% {name} {0}',
+    'quotes \' " \'\'\' \"\"\" backslash \\ \\n', 'UPPER lower MiXeD', 'x' * 5000,
+    ('a long line ' * 40 + '\n        ') * 12, 'None', '0',
+]
+# function names: case, underscores, non-ASCII (NFKC-stable), long
+FNAMES = ['f', 'g_', 'handler', '_private', '__dunder__', 'CamelCase', 'UPPER', 'f2', '\u00e9t\u00e9', '\u540d\u524d',
+          '\u0394x', 'a_rather_long_function_name_' * 8 + 'end']
+
+
+def rand_doc(rng):
+    if rng.random() < 0.6:
+        return rng.choice(DOCS)
+    lines = []
+    for _ in range(rng.randrange(1, 6)):
+        lines.append(rng.choice(['', ' ', '  ', '    ', '        ', '\t', ' \t']) +
+                     rng.choice(['', 'text', 'Text here.', '\u00e9\u00e8', ':param x: y', '>>> f(1)']) +
+                     rng.choice(['', '', ' ', '   ', '\t']))
+    return rng.choice(['\n', '\r\n']).join(lines) if rng.random() < 0.9 else '\n'.join(lines) + '\n'
+
+
 NAMES_PO = ['p', 'q']
 NAMES_PK = ['a', 'b', 'c']
 NAMES_KO = ['k', 'm']
@@ -1142,15 +1228,17 @@ def rand_shape(rng):
     kwonly = NAMES_KO[:rng.choice([0, 0, 1, 2])]
     if r() < 0.06 and 'func' not in args:
         kwonly = kwonly + ['func']
-    sh = dict(name=rng.choice(['f', 'g_', 'handler']), posonly=posonly, args=args,
+    sh = dict(name=rng.choice(FNAMES), posonly=posonly, args=args,
               ndefaults=rng.randrange(0, npos + 1) if npos and r() < 0.6 else 0,
               varargs=rng.choice(['va', 'args']) if r() < 0.35 else None, kwonly=kwonly,
               kwdefaults=[k for k in kwonly if r() < 0.5], varkw=rng.choice(['kw', 'kwargs']) if r() < 0.45 else None)
     q = r()
     if q < 0.15:
         sh['ann'] = True
-    if r() < 0.3:
-        sh['doc'] = rng.choice(['Docstring.', '', 'multi\nline'])
+    if r() < 0.6:
+        sh['doc'] = rand_doc(rng)
+        if r() < 0.15:
+            sh['doc_assign'] = True
     if r() < 0.12:
         if posonly:
             sh['posonly'] = ['self'] + posonly
@@ -1162,7 +1250,8 @@ def rand_shape(rng):
     elif r() < 0.08:
         sh['lambda'] = True
         sh.pop('ann', None)
-        sh.pop('doc', None)
+        if r() < 0.5:
+            sh.pop('doc', None)
     return sh
 
 
@@ -1218,6 +1307,21 @@ def bind_cases(ctx):
         yield dict(kind='bind', shape=dict(base, name=nm, args=['x']), wkind='track', pos=[1], kw=[])
         yield dict(kind='bind', shape=dict(base, kwonly=[nm], kwdefaults=[nm]), wkind='track', pos=[], kw=[])
         yield dict(kind='bind', shape=dict(base, kwonly=[nm]), wkind='count', pos=[], kw=[[nm, 1]])
+    # every docstring of the pool x {function, method, lambda with assigned __doc__, function with assigned __doc__}
+    i = 0
+    for doc in DOCS:
+        for extra in (dict(), dict(args=['self', 'x'], method=True), dict(args=['x'], **{'lambda': True}),
+                      dict(args=['x'], kwonly=['k'], kwdefaults=['k'], ann=True, doc_assign=True)):
+            i += 1
+            sh = dict(base, doc=doc, **extra)
+            if 'args' not in extra:
+                sh['args'] = ['a']
+            yield dict(kind='bind', shape=sh, wkind=WKINDS[i % 5], labelled=(i % 3 == 0), pos=[1], kw=[])
+    for j, nm in enumerate(FNAMES):
+        yield dict(kind='bind', shape=dict(base, name=nm, args=['a'], ndefaults=1, kwonly=['k'], kwdefaults=['k'], ann=True,
+                                           doc='Doc of %s.\n    more\n' % nm),
+                   wkind=WKINDS[j % 5], pos=[], kw=[])
+        yield dict(kind='bind', shape=dict(base, name=nm, args=['self', 'a'], method=True), wkind=WKINDS[(j + 1) % 5], pos=[1], kw=[])
     # exhaustive small slice: shapes over (posonly<=1, args<=2, defaults, varargs?, kwonly<=1 +/-default, varkw?) x small calls
     for npo, na, va, nk, vk in itertools.product((0, 1), (0, 1, 2), (None, 'va'), (0, 1), (None, 'kw')):
         for nd in range(0, npo + na + 1):
@@ -1275,7 +1379,13 @@ def shrinks(case):
         if case['pos']:
             yield dict(case, pos=case['pos'][:-1])
         sh = case['shape']
-        for key in ('ann', 'doc', 'method', 'lambda'):
+        d = sh.get('doc')
+        if d and len(d) > 1:
+            for d2 in (d[:len(d) // 2], d[len(d) // 2:], d[1:], d[:-1]):
+                yield dict(case, shape=dict(sh, doc=d2))
+        if sh['name'] != 'f' and not sh.get('lambda'):
+            yield dict(case, shape=dict(sh, name='f'))
+        for key in ('ann', 'doc', 'doc_assign', 'method', 'lambda'):
             if sh.get(key) and key not in ('method',):
                 s2 = dict(sh)
                 s2.pop(key)
